@@ -80,6 +80,50 @@ def list_cases(rng):
     return ok, len(out)
 
 
+def read_cases(rng):
+    """list.count / list.index(x, start, stop): the definitional axioms used by the loop invariants of the inherited
+    Sequence mixins (contracts/tree.py) + the engine's closure instances, against CPython's answers."""
+    from contracts import tree as T
+    l = [rng.randint(0, 3) for _ in range(rng.randint(0, 6))]
+    x = rng.randint(0, 3)
+    c0 = smt.fresh("c0")
+    base = facts_list(c0, l)
+    X = vi(x)
+    for k, e in enumerate(l):       # Python == between the elements and the value, as CPython decides it
+        base.append(smt.pyeq(bs.list_get(c0, vi(k)), X) == z3.BoolVal(e == x))
+    idxs = [z3.IntVal(k) for k in range(len(l))]
+    ok = True
+    fs = list(base) + T.count_axioms(c0, X, idxs) + [bs.list_count(c0, X) == l.count(x)]
+    ok &= check(fs, f"{l}.count({x})")
+    start, stop = rng.randint(-8, 8), rng.randint(-8, 8)
+    n = len(l)
+    lo = max(n + start, 0) if start < 0 else start
+    hi = max(n + stop, 0) if stop < 0 else stop
+    LO, HI = z3.IntVal(lo), z3.IntVal(hi)
+    fs = list(base) + T.index_in_axioms(c0, X, LO, HI, idxs)
+    try:
+        r = l.index(x, start, stop)
+        fs += [bs.list_contains_in(c0, X, VInt(LO), VInt(HI)), bs.list_index_in(c0, X, VInt(LO), VInt(HI)) == r]
+    except ValueError:
+        fs += [z3.Not(bs.list_contains_in(c0, X, VInt(LO), VInt(HI)))]
+    ok &= check(fs, f"{l}.index({x}, {start}, {stop})")
+    # and the opposite answer must be refuted when there is a hit (the axioms pin the result down)
+    try:
+        r = l.index(x, start, stop)
+        wrong = list(base) + T.index_in_axioms(c0, X, LO, HI, idxs) + \
+            [bs.list_contains_in(c0, X, VInt(LO), VInt(HI)), bs.list_index_in(c0, X, VInt(LO), VInt(HI)) != r]
+        ax = obligations.closure_axioms(wrong)
+        sv = z3.Solver()
+        sv.set("timeout", 20000)
+        for f in wrong + ax:
+            sv.add(f)
+        if sv.check() != z3.unsat:
+            print("UNDERSPECIFIED (not unsound):", f"{l}.index({x}, {start}, {stop}) != {r} is not refuted")
+    except ValueError:
+        pass
+    return ok, 2
+
+
 def dict_cases(rng):
     keys = ["a", "b", "c", "d"]
     d = {k: rng.randint(0, 9) for k in rng.sample(keys, rng.randint(0, 3))}
@@ -126,8 +170,9 @@ def main():
     for _ in range(n):
         a, c = list_cases(rng)
         b, e = dict_cases(rng)
-        ok &= a and b
-        cases += c + e
+        r_ok, r_n = read_cases(rng)
+        ok &= a and b and r_ok
+        cases += c + e + r_n
     # negative control: a deliberately wrong fact must be refuted (the harness can see a contradiction at all)
     c0 = smt.fresh("c0")
     fs = facts_list(c0, [1, 2]) + [bs.list_get(bs.list_append(c0, vi(7)), vi(2)) == vi(8)]
